@@ -97,12 +97,14 @@ def canonical_store(ctx, report, m, f):
             # two forms: list -> Header::encode(h) || payload[..len]; string -> encode(payload[..len])
             hdr = an.call_expr(cl[0][2]["term"], cl[0][2]["bb"])
             forms = set()
+            form_sites = {}
             for s in stored:
                 s = unmut(s)
                 if s.k == "call" and s.a[0].fn == "alloy_rlp::encode" and s.a[1]:
                     v = strip(s.a[1][0])
                     if sliced_by_header(v, hdr):
                         forms.add("string")
+                        form_sites["string"] = s.site
                 elif s.k == "call" and s.a[0].name in ("new", "with_capacity") and "Vec" in s.a[0].fn:
                     # buffer filled by Header::encode(h) then extend_from_slice(payload[..len])
                     import shapes
@@ -120,6 +122,7 @@ def canonical_store(ctx, report, m, f):
                             hp = ok_payload(h)
                             if hp is not None and same_value(hp, hdr) and sliced_by_header(pl, hdr):
                                 forms.add("list")
+                                form_sites["list"] = muts[0]["bb"]
             # which form is used is decided by the header's `list` flag, and by nothing else
             ok = forms == {"string", "list"}
             why = "forms recognised: %s" % sorted(forms)
@@ -140,6 +143,26 @@ def canonical_store(ctx, report, m, f):
                     if an.cfg.reaches(hb, n):
                         ok = False
                         why = "the choice between list and string re-framing also depends on %s" % short(info[0], 100)
+                # ... and the right way round: the list form under `list == true`, the string form under `list == false`
+                for form, want in (("list", True), ("string", False)):
+                    site = form_sites.get(form)
+                    if site is None:
+                        continue
+                    for d, cond, allowed, alll in an.constraints_at(site):
+                        c0 = strip(cond)
+                        neg = False
+                        while c0.k == "unop" and c0.a[0] == "Not":
+                            neg = not neg
+                            c0 = strip(c0.a[1])
+                        if not (c0.k == "field" and c0.a[1] == "list"):
+                            continue
+                        true_edge = ("otherwise" in allowed or 1 in allowed) and 0 not in allowed
+                        false_edge = allowed == {0}
+                        holds = (true_edge and not neg) or (false_edge and neg)
+                        fails = (false_edge and not neg) or (true_edge and neg)
+                        if (want and fails) or (not want and holds):
+                            ok = False
+                            why = "the %s re-framing is used when the header's list flag is %s" % (form, "false" if want else "true")
         report.check("CANON", "leaf:%s" % kname, ok, "for key class %r the decoder stores the canonical re-encoding of exactly what it decoded" % kname,
                      "decoder leaf for %r: %s" % (kname, why), fn=f.path, sp=cl[0][1] if cl else f.span, config=cfg)
 
